@@ -64,6 +64,7 @@ def actions(weights, fail_heavy=False, bodies=False):
         'restart': st.just(['restart']),
         'serve': _outcomes(fail_heavy).map(lambda o: ['serve', o]),
         'storage': st.just(['storage']),
+        'answer': _outcomes(fail_heavy).map(lambda o: ['answer', o]),
     }
     pool = []
     for k, w in weights.items():
@@ -149,11 +150,14 @@ SEQ_ALPHABET = [
     ['enqueue', {'n': 2, 'sender': True, 'body': ''}],
     ['release', 0, {'shape': 'raise_t', 'replies': [1]}],
     ['storage'],
+    ['answer', {'shape': 'raise_t', 'replies': [0]}],
+    ['answer', {'shape': 'map', 'per': ['perm', 'temp', 'perm'], 'replies': [0]}],
 ]
 SEQ_CONFIGS = [
     {'backend': 'dict', 'backoff': [5, 5], 'backoff_forever': True, 'announce': True},
     {'backend': 'dict', 'backoff': [0, 5], 'backoff_forever': False, 'announce': True},
     {'backend': 'disk', 'backoff': [5], 'backoff_forever': True},
+    {'backend': 'dict', 'backoff': [0, 0, 0], 'backoff_forever': True, 'store_pool': 2, 'relay_pool': 2},
 ]
 
 
@@ -171,3 +175,31 @@ def drive_sequences(ctx, owners, depth, nontrivial, configs=None):
                 ctx.record(('seq', cfg['backend'], tuple(cfg['backoff']), seq), nontrivial(labels, stats, cfg, acts),
                            labels=['sequences', 'backend=' + cfg['backend']] + sorted(labels),
                            case=lambda: {'cfg': cfg, 'actions': acts}, failures=fails)
+
+
+# -- bursts: several messages due in the same scheduler pass, bounded pools ------------------------------
+
+def burst_history():
+    T = {'shape': 'raise_t', 'replies': [0]}
+
+    @st.composite
+    def strat(draw):
+        k = draw(st.integers(2, 4))
+        cfg = {'backend': draw(st.sampled_from(['dict', 'dict', 'disk', 'shelf'])),
+               'backoff': [draw(st.sampled_from([5, 0, 1]))], 'backoff_forever': True,
+               'store_pool': draw(st.sampled_from([1, 2, 2, 3])), 'relay_pool': draw(st.sampled_from([None, 1, 2]))}
+        acts = []
+        for _ in range(k):
+            acts.append(['enqueue', {'n': draw(st.integers(1, 2)), 'sender': True, 'body': ''}])
+        for _ in range(k):
+            acts.append(['serve', T])
+        acts.append(['tick'])
+        tail = draw(st.lists(st.one_of(
+            st.integers(0, 5).map(lambda i: ['release', i, T]),
+            st.integers(0, 5).map(lambda i: ['release', i, T]),
+            st.just(['answer', T]),
+            st.just(['answer', {'shape': 'none'}]),
+            st.just(['storage']),
+            st.just(['tick'])), min_size=4, max_size=30))
+        return cfg, acts + tail
+    return strat()
